@@ -542,6 +542,10 @@ def check(F, run, tier):
         run.add(bad("R-SEQ", DW + "::WriteImplementation#append", fn.loc(mc[0]["id"]), fn.qn,
                     "append: resize(old + n) then copy n bytes to data() + old", "resize(%s); memcpy(%s, …, %s)" % (fmt_term(newsize), fmt_term(dst), fmt_term(ln))))
 
+    # the typed string read is the inverse of the typed string write: both move size() * sizeof(character) bytes
+    from . import c12 as _c12
+    _o, _ = _c12.typed_helpers(F, S, run)
+    run.add([o for o in _o if "basic_string" in o.instance and o.instance.endswith("#length")])
     obs, n = resize_fill(F, S)
     run.add(obs)
     obs, n = r_narrow_prefix(F, S)
